@@ -24,6 +24,7 @@ namespace PyRtC08
 /-- exception classes (as values) -/
 inductive Exc
   | KeyError | IndexError | TypeError | ValueError | AttributeError | RuntimeError | PathAccessError | Other
+  | UnboundLocalError | OutOfFuel
 deriving DecidableEq, Repr
 
 /-- `isinstance(e, c)` / what `except c:` catches -/
@@ -70,5 +71,40 @@ abbrev R (σ α : Type) := Except Exc (α × σ)
 
 /-- what `default_enter` returns: `(new_parent, False)` = `(new_parent, none)`, `(new_parent, iterator)` -/
 abbrev EnterRes (V K : Type) := V × Option (List (K × V))
+
+/-! ## loop mode: the explicit-stack machine of `remap`
+
+The work stack holds two kinds of entries which the source tells apart by `key is _REMAP_EXIT`: `(key, value)` and
+`(_REMAP_EXIT, (key, new_parent, old_parent))`.  A Python list used as a stack (`pop()` / `append` /
+`extend(reversed(list(..)))`) is represented TOP FIRST.  `id(x)` is the reference `x` itself: the registry is an
+association list keyed by references (two references have the same `id` iff they are equal; the source keeps every
+traversed object alive, so no `id` is reused).  Callbacks are parameters; `OutOfFuel` is not Python (a `while` loop did
+not finish within the fuel), `UnboundLocalError` is a local read before any assignment. -/
+
+/-- an entry of the work stack -/
+inductive Frame (V K : Type)
+  | item (k : K) (v : V)
+  | exit (k : K) (np old : V)
+
+/-- what a `visit` callback returns: `True`, `False` or a `(key, value)` pair -/
+inductive VisitRes (V K : Type)
+  | true_
+  | false_
+  | pair (k : K) (v : V)
+
+abbrev EnterFn (σ V K : Type) := σ → List K → K → V → R σ (EnterRes V K)
+abbrev ExitFn (σ V K : Type) := σ → List K → K → V → V → List (K × V) → R σ V
+abbrev VisitFn (σ V K : Type) := σ → List K → K → V → R σ (VisitRes V K)
+
+/-- `registry[id(x)]` (`none`: `id(x) not in registry`); the LAST assignment wins = the first entry -/
+def regLookup {V : Type} [DecidableEq V] : List (V × V) → V → Option V
+  | [], _ => none
+  | (a, b) :: r, x => if a = x then some b else regLookup r x
+
+/-- `registry[id(x)]` as an expression -/
+def regGet {V : Type} [DecidableEq V] (r : List (V × V)) (x : V) : Except Exc V :=
+  match regLookup r x with
+  | some v => .ok v
+  | none => .error .KeyError
 
 end PyRtC08
